@@ -230,12 +230,12 @@ from .c12_cards import r3_card_grid  # noqa: E402
 from .c12_parse import r4_parse_back  # noqa: E402
 
 RULES = [
-    ("C12-R3", r3_card_grid, 10),
-    ("C12-R4", r4_parse_back, 10),
-    ("C12-R1", r1_ladder, 140),
-    ("C12-R1b", r1b_integer_arm, 8),
-    ("C12-R2", r2_scientific, 120),
-    ("C12-R2b", r2b_paths, 50),
+    ("C12-R3", r3_card_grid, 150),
+    ("C12-R4", r4_parse_back, 45),
+    ("C12-R1", r1_ladder, 190),
+    ("C12-R1b", r1b_integer_arm, 2),
+    ("C12-R2", r2_scientific, 140),
+    ("C12-R2b", r2b_paths, 30),
 ]
 LEVEL = "other"
 EXPLANATION = ("Static width/precision analysis of format_float8/16 on (interval, rendering) leaves: every decade in which fixed notation "
